@@ -14,6 +14,10 @@ structure GameStats where
   epcap : Nat := 0
   eprights : Nat := 0
   captures : Nat := 0
+  epcapAt : List Nat := []      -- ply indices of the positions in which an e.p. capture is played next
+  castleAt : List Nat := []     -- ply indices of the positions in which the side to move castles next
+
+def showIdx (l : List Nat) : String := if l.isEmpty then "-" else ",".intercalate (l.map toString)
 
 def isEpCapture (p : Pos) (m : Mv) : Bool :=
   kind (p.at m.f) == 6 && p.ep == some m.t && p.at m.t == 0 && m.f.x != m.t.x
@@ -36,7 +40,9 @@ partial def replay (p : Pos) (ms : List String) (i : Nat) (want : List Nat) (acc
           castle := st.castle + (if isK && (m.t.val == m.f.val + 2 || m.t.val + 2 == m.f.val) then 1 else 0),
           epcap := st.epcap + (if isEpCapture p m then 1 else 0),
           eprights := st.eprights + (if q.ep.isSome then 1 else 0),
-          captures := st.captures + (if p.at m.t != 0 || isEpCapture p m then 1 else 0) }
+          captures := st.captures + (if p.at m.t != 0 || isEpCapture p m then 1 else 0),
+          epcapAt := if isEpCapture p m then st.epcapAt ++ [i] else st.epcapAt,
+          castleAt := if isK && (m.t.val == m.f.val + 2 || m.t.val + 2 == m.f.val) then st.castleAt ++ [i] else st.castleAt }
         replay q rest (i + 1) want acc st
       else .error s!"illegal {i} {s}"
 
@@ -83,7 +89,7 @@ def step (args : List String) : String :=
       | .error e => e
       | .ok (n, p, fens, st) =>
         s!"ok {n} | " ++ " | ".intercalate (fens ++ [toFEN p]) ++
-          s!" | promo={st.promo} castle={st.castle} epcap={st.epcap} eprights={st.eprights} captures={st.captures} men={men true p.b + men false p.b}"
+          s!" | promo={st.promo} castle={st.castle} epcap={st.epcap} eprights={st.eprights} captures={st.captures} men={men true p.b + men false p.b} epcapat={showIdx st.epcapAt} castleat={showIdx st.castleAt}"
   | "fencounts" :: fen =>
     match readFEN (fenOf fen) with
     | .error e => "err " ++ e.toString
